@@ -1,3 +1,4 @@
+// @READY (registered in vf/props.py)
 // appended to src/fec/rscodec.rs (scratch copy only) -- C08: Reed-Solomon source-shard slicing (iterator adapters, outside Verus)
 #[cfg(any(kani, test))]
 #[allow(dead_code, unused_imports, unused_macros)]
